@@ -67,6 +67,25 @@ func unwrappedWriter(v ssa.Value, b *ssa.BasicBlock, fromEdge *ssa.BasicBlock, d
 			}
 		}
 		return true
+	case *ssa.Call:
+		// an unwrapping helper: func unwrap(w io.Writer) io.Writer { if wi, ok := w.(Indenter); ok { return wi.Writer }; return w }
+		// — every value it returns is unwrapped in its own frame (its parameter counts only on the failing side of the assertion)
+		g := x.Call.StaticCallee()
+		if g == nil || x.Call.IsInvoke() || fnPkg(g) == nil || !core.InModule(fnPkg(g)) || len(g.Blocks) == 0 {
+			return false
+		}
+		n := 0
+		for _, gb := range g.Blocks {
+			ret, ok := lastInstr(gb).(*ssa.Return)
+			if !ok || len(ret.Results) != 1 {
+				continue
+			}
+			n++
+			if !unwrappedWriter(ret.Results[0], gb, nil, depth+1, nil) {
+				return false
+			}
+		}
+		return n > 0
 	case *ssa.Parameter:
 		// (a) reached through the failing edge of an Indenter assertion on this parameter
 		at := b
